@@ -132,7 +132,7 @@ def runner(prop, fam, tier, seed, replay=None):
                 ev["coverage"]["states"] += sum(x["states"] for x in shape_info) + sum(d["states"] for d in design_stats)
                 ev["coverage"]["transitions"] += sum(x["transitions"] for x in shape_info) + sum(d["transitions"] for d in design_stats)
                 ev["wall_s"] = round(time.time() - t0, 2)
-                tmp = p + ".tmp"
+                tmp = p + ".tmp%d" % os.getpid()
                 json.dump(ev, open(tmp, "w"), indent=1, sort_keys=True)
                 os.replace(tmp, p)
             except Exception:
